@@ -85,7 +85,7 @@ theorem si_stepPlayer_g (cfg : Cfg) (s s' : State) (i : Nat) (h : stepPlayer cfg
       have := g3 (by rw [hf]; rfl)
       rw [this] at hm; cases hm
     simp only at h
-    cases hpcv : p.pc <;> simp only [hpcv] at h <;> (try split at h) <;> (try cases h) <;>
+    cases hpcv : p.pc <;> simp only [hpcv] at h <;> (try split at h) <;> (try cases h) <;> (try split at h) <;> (try cases h) <;>
     (have hnn := hne (by rw [hpcv]; simp)) <;>
     (constructor <;>
       (first
@@ -116,13 +116,13 @@ theorem si_stepPlayer_p (cfg : Cfg) (s s' : State) (i : Nat) (h : stepPlayer cfg
       have a2 := (hall k q hk).ml hq
       rw [a1] at a2; cases a2; exact hne rfl
     simp only at h
-    cases hpcv : p.pc <;> simp only [hpcv] at h <;> (try split at h) <;> (try cases h) <;>
+    cases hpcv : p.pc <;> simp only [hpcv] at h <;> (try split at h) <;> (try cases h) <;> (try split at h) <;> (try cases h) <;>
     (refine SP_set (i := i) (hs' := rfl) ?_ ?_
      · intro k q hk hne
        obtain ⟨r1, r2, r3, r4, r5, r6⟩ := hall k q hk
        have hm2 := fun hh => hml2 hh k q hk hne
        constructor <;> simp_all [setP, List.mem_erase_of_ne]
-     · rcases loopHead_cases p with ⟨ht, hl⟩ | ⟨ht, hl⟩ <;>
+     · rcases loopHead_cases p with ⟨ht, hf, hl⟩ | ⟨ht, hl⟩ <;>
        (constructor <;> (try split) <;> simp_all [setP, sstOK, inThreads]))
 
 /-- main-step cases that update one player record: generic shape -/
@@ -400,7 +400,7 @@ theorem si_main_pAcq (cfg : Cfg) (s s' : State) (a : List Int) (c : Nat) (hm : s
       cases h
       have hT0 : s.terminated = 0 := m2 (by simpa using hfin)
       constructor
-      · have hc := fun k => pcAt_players_append (s := s) (s' := { s with mlock := some .main, players := s.players ++ [{ pc := .new, audio := a, cs := c, all := chunksOf c a, todo := chunksOf c a, written := [], sst := .unopened, lk := none, go := false, halting := false }], mpc := .pGoSet s.players.length }) rfl k
+      · have hc := fun k => pcAt_players_append (s := s) (s' := { s with mlock := some .main, players := s.players ++ [{ pc := .new, audio := a, cs := c, all := playChunks c a (cfg.fails.getD s.players.length false), todo := playChunks c a (cfg.fails.getD s.players.length false), written := [], sst := .unopened, lk := none, go := false, halting := false, fail := cfg.fails.getD s.players.length false }], mpc := .pGoSet s.players.length }) rfl k
         constructor <;> simp_all [creating, mainHoldsM]
       · refine SP_append (hs' := rfl) ?_ ?_
         · intro k q hk
